@@ -173,6 +173,11 @@ def load_reference():
 def apply_reference(repo):
     """rename locals / parameters of the in-memory ASTs to the reference names where the structure matches"""
     ref = load_reference()
+    full_ref = ref
+    try:
+        repo.inlined_helpers = inline_new_helpers(repo, full_ref) if full_ref else {}
+    except RecursionError:
+        repo.inlined_helpers = {}
     # a function whose tree is identical to the reference needs no translation
     ref = {q: r for q, r in ref.items() if q in repo.funcs and not repo.funcs[q].is_lambda and r.get("digest") != _digest(repo.funcs[q].node)}
     renamed = {}
@@ -799,3 +804,238 @@ def positional_calls(repo, ref):
                 _invalidate(c)
                 changed[q] = changed.get(q, 0) + moved
     return changed
+
+
+# ----------------------------------------------------------------------------------------------------------------------
+# new helper functions (extract-method refactorings) are inlined at their call sites
+
+class _Refuse(Exception):
+    pass
+
+
+def _has_return(node):
+    for x in ast.walk(node):
+        if isinstance(x, ast.Return):
+            return True
+        if isinstance(x, (ast.FunctionDef, ast.AsyncFunctionDef, ast.Lambda)) and x is not node:
+            pass
+    return False
+
+
+def _tailify(stmts, conv):
+    """rewrite a statement list so that every `return` is in tail position and replaced by conv(value) (a list of statements);
+    the statements after an `if` that contains a return are pushed into both of its suites"""
+    out = []
+    for i, st in enumerate(stmts):
+        if isinstance(st, ast.Return):
+            return out + conv(st.value), True
+        if _has_return(st):
+            if not isinstance(st, ast.If):
+                raise _Refuse("return inside %s" % type(st).__name__)
+            rest = stmts[i + 1:]
+            b, tb = _tailify(list(st.body) + rest, conv)
+            o, to = _tailify(list(st.orelse) + rest, conv)
+            new = ast.If(test=st.test, body=b or [ast.Pass()], orelse=o)
+            return out + [new], (tb and to)
+        out.append(st)
+    return out, False
+
+
+class _SubstNames(ast.NodeTransformer):
+    def __init__(self, mapping):
+        self.mapping = mapping            # name -> replacement expression text
+
+    def visit_Name(self, node):
+        if node.id in self.mapping:
+            new = ast.parse(self.mapping[node.id], mode="eval").body
+            if isinstance(node.ctx, ast.Store) and isinstance(new, ast.Name):
+                new.ctx = ast.Store()
+            return new
+        return node
+
+    def visit_ExceptHandler(self, node):
+        self.generic_visit(node)
+        if node.name in self.mapping:
+            node.name = self.mapping[node.name]
+        return node
+
+
+def inline_new_helpers(repo, full_ref):
+    """A function that the reference tree does not have, whose body is loop-free of returns (every return can be brought into
+    tail position) and that is called as a whole statement (`h(...)`, `x = h(...)`, `return h(...)`) from a function of the
+    same class / module, is an extracted method: its body is put back at the call site (parameters replaced by the simple
+    argument expressions or bound to them first, clashing locals renamed, returns replaced by the assignment / return of
+    the call statement).  When every call of the helper was inlined the helper is removed from the index."""
+    done = {}
+    new_funcs = {q: fi for q, fi in repo.funcs.items() if q not in full_ref and not fi.is_lambda and fi.parent is None
+                 and fi.module.name in {k.split(":")[0] for k in full_ref}}
+    if not new_funcs:
+        return done
+    for hq, h in list(new_funcs.items()):
+        a = h.node.args
+        if a.vararg or a.kwarg or a.kwonlyargs or a.posonlyargs:
+            continue
+        decos = set(h.decorators)
+        if decos - {"staticmethod", "classmethod"}:
+            continue
+        if any(isinstance(x, (ast.Yield, ast.YieldFrom, ast.Await, ast.Global, ast.Nonlocal)) for x in ast.walk(h.node)):
+            continue
+        if any(isinstance(x, (ast.FunctionDef, ast.AsyncFunctionDef, ast.ClassDef)) for x in ast.walk(h.node) if x is not h.node):
+            continue
+        # not recursive
+        if any(isinstance(c, ast.Call) and (norm_name(c.func) == h.name) for c in ast.walk(h.node)):
+            continue
+        params = [x.arg for x in a.args]
+        is_method = h.cls is not None and "staticmethod" not in decos
+        recv_param = params[0] if is_method and params else None
+        call_params = params[1:] if is_method else params
+        defaults = dict(zip(reversed(call_params), reversed([ast.unparse(d) for d in a.defaults])))
+        h_locals = {n for n, _ in _bound_names(h.node)[0]}
+        stored_params = {x.id for x in ast.walk(h.node) if isinstance(x, ast.Name) and isinstance(x.ctx, (ast.Store, ast.Del)) and x.id in params}
+        # call sites, package-wide, by syntactic form
+        sites, other_uses = [], 0
+        for q, fi in repo.funcs.items():
+            if fi.is_lambda or fi is h:
+                continue
+            for c in walk_own(fi.node):
+                if isinstance(c, ast.Attribute) and c.attr == h.name and not isinstance(getattr(c, "_parent", None), ast.Call):
+                    other_uses += 1
+                if isinstance(c, ast.Name) and c.id == h.name and isinstance(c.ctx, ast.Load) and not (isinstance(getattr(c, "_parent", None), ast.Call) and c._parent.func is c):
+                    other_uses += 1
+                if not isinstance(c, ast.Call) or norm_name(c.func) != h.name:
+                    continue
+                ok_recv = False
+                recv = None
+                if h.cls is not None and isinstance(c.func, ast.Attribute):
+                    v = c.func.value
+                    if isinstance(v, ast.Name) and v.id in ("self", "cls") and fi.cls is not None and (fi.cls is h.cls or h.cls in _mro(fi.cls)):
+                        ok_recv, recv = True, v.id
+                    elif isinstance(v, ast.Name) and v.id == h.cls.name and not is_method:
+                        ok_recv = True
+                elif h.cls is None and isinstance(c.func, ast.Name) and fi.module is h.module:
+                    ok_recv = True
+                st = getattr(c, "_parent", None)
+                form = None
+                if isinstance(st, ast.Expr) and st.value is c:
+                    form = "expr"
+                elif isinstance(st, ast.Assign) and st.value is c and len(st.targets) == 1:
+                    form = "assign"
+                elif isinstance(st, ast.Return) and st.value is c:
+                    form = "return"
+                sites.append((fi, c, st, form, ok_recv, recv))
+        if not sites or other_uses or any(not ok or form is None for (_, _, _, form, ok, _) in sites):
+            continue
+        try:
+            for (fi, c, st, form, _, recv) in sites:
+                if any(isinstance(x, ast.Starred) for x in c.args) or any(k.arg is None for k in c.keywords):
+                    raise _Refuse("star arguments")
+                argmap = {}
+                for p_, a_ in zip(call_params, c.args):
+                    argmap[p_] = a_
+                for k in c.keywords:
+                    if k.arg not in call_params or k.arg in argmap:
+                        raise _Refuse("keyword")
+                    argmap[k.arg] = k.value
+                prelude = []
+                mapping = {}
+                for p_ in call_params:
+                    if p_ in argmap:
+                        e = argmap[p_]
+                        simple = isinstance(e, (ast.Name, ast.Constant))
+                        if simple and p_ not in stored_params:
+                            mapping[p_] = ast.unparse(e)
+                        else:
+                            prelude.append(ast.parse("%s = %s" % (p_, ast.unparse(e))).body[0])
+                    elif p_ in defaults:
+                        prelude.append(ast.parse("%s = %s" % (p_, defaults[p_])).body[0])
+                    else:
+                        raise _Refuse("missing argument")
+                if recv_param is not None:
+                    if recv_param in stored_params:
+                        raise _Refuse("receiver rebound")
+                    mapping[recv_param] = recv or "self"
+                caller_names = {n for n, _ in _bound_names(fi.node)[0]} | set(fi.params)
+                for n in sorted(h_locals | {p_ for p_ in call_params if p_ not in mapping}):
+                    if n in caller_names and n not in mapping:
+                        mapping[n] = n + "__h"
+                tgt = ast.unparse(st.targets[0]) if form == "assign" else None
+
+                def conv(value, form=form, tgt=tgt):
+                    if form == "expr":
+                        if value is None or isinstance(value, (ast.Name, ast.Constant)):
+                            return []
+                        return [ast.Expr(value=value)]
+                    if form == "assign":
+                        return [ast.parse("%s = %s" % (tgt, ast.unparse(value) if value is not None else "None")).body[0]]
+                    return [ast.Return(value=value)]
+                body = [s for s in h.node.body if not (isinstance(s, ast.Expr) and isinstance(s.value, ast.Constant) and isinstance(s.value.value, str))]
+                body = ast.parse("\n".join(ast.unparse(s) for s in body) or "pass").body
+                new, terminated = _tailify(body, conv)
+                if not terminated:
+                    new = new + conv(None) if form != "expr" else new
+                mod = ast.Module(body=prelude + new, type_ignores=[])
+                ast.fix_missing_locations(mod)
+                fresh = _drop_noops(ast.parse(ast.unparse(_SubstNames(mapping).visit(mod)) or "pass").body) or [ast.Pass()]
+                blk, idx = _block_of(st)
+                if blk is None:
+                    raise _Refuse("call statement not in a block")
+                owner = st._parent
+                for s_ in fresh:
+                    for y in ast.walk(s_):
+                        ast.copy_location(y, st)
+                        for ch in ast.iter_child_nodes(y):
+                            ch._parent = y
+                    s_._parent = owner
+                    s_._inlined_from = hq
+                blk[idx:idx + 1] = fresh
+                _invalidate(owner)
+                done.setdefault(fi.qual, []).append(h.name)
+        except _Refuse:
+            continue
+        # every call was inlined: the helper is gone from the translated program
+        del repo.funcs[hq]
+        if h.cls is not None:
+            h.cls.methods.pop(h.name, None)
+            lst = repo.by_name_methods.get(h.name, [])
+            if h in lst:
+                lst.remove(h)
+        else:
+            h.module.funcs.pop(h.name, None)
+    return done
+
+
+def norm_name(f):
+    return f.attr if isinstance(f, ast.Attribute) else f.id if isinstance(f, ast.Name) else None
+
+
+def _mro(ci):
+    out, todo = [], list(ci.bases)
+    while todo:
+        b = todo.pop(0)
+        if b not in out:
+            out.append(b)
+            todo += list(b.bases)
+    return out
+
+
+def _drop_noops(stmts):
+    """x = x and empty suites left behind by the substitution"""
+    out = []
+    for st in stmts:
+        if isinstance(st, ast.Assign) and len(st.targets) == 1 and ast.unparse(st.targets[0]) == ast.unparse(st.value) and isinstance(st.value, (ast.Name, ast.Attribute)):
+            continue
+        if isinstance(st, ast.Pass):
+            continue
+        if isinstance(st, ast.If):
+            st.body = _drop_noops(st.body)
+            st.orelse = _drop_noops(st.orelse)
+            if not st.body and not st.orelse:
+                if any(isinstance(x, ast.Call) for x in ast.walk(st.test)):
+                    st.body = [ast.Pass()]
+                else:
+                    continue
+            elif not st.body:
+                st.test = ast.UnaryOp(op=ast.Not(), operand=st.test)
+                st.body, st.orelse = st.orelse, []
+        out.append(st)
+    return out
